@@ -547,6 +547,16 @@ def probe_sympylib():
             bad.append(f"SympyLib.{name} is not sympy's function of that name")
     if L.arctan2(a, b) != sympy.atan2(a, b) or L.pi != sympy.pi:
         bad.append("SympyLib.arctan2/pi changed")
+    # `sign` is applied to scale FACTORS, which may be Python numbers or exact SymPy numbers of known sign: it must be their sign
+    for v_, want in ((-2, -1), (2.5, 1), (0, 0), (sympy.Integer(-3), -1), (sympy.Rational(-3, 2), -1), (sympy.Float(-1.75), -1), (sympy.Float(2.5), 1),
+                     (-sympy.pi, -1), (sympy.Integer(0), 0), (sympy.Rational(1, 3), 1)):
+        try:
+            if L.sign(v_) != want:
+                bad.append(f"SympyLib.sign({v_!r}) = {L.sign(v_)!r}, not the sign of the number")
+                break
+        except Exception as e:  # noqa: BLE001
+            bad.append(f"SympyLib.sign({v_!r}) raises {type(e).__name__}")
+            break
     return bad
 
 
